@@ -8,7 +8,7 @@ inject(rng, doc, kind=None) -> Fault or None
 """
 import copy
 
-from vlib import gen_doc
+from vlib import gen_doc, ref_values
 
 ELE_KINDS = ['too_long', 'too_short', 'bad_code', 'bad_char', 'bad_date', 'bad_time', 'bad_qualified_datetime', 'bad_pattern', 'missing_required', 'notused_filled',
              'too_many_elements', 'too_many_components', 'syntax']
@@ -289,15 +289,24 @@ class _K(object):
         i, node, ep, sp, cur = s
         dt, mn, mx = gen_doc.dtype_of(node)
         n = max(mn, 2)
+        note = None
         if dt == 'AN':
-            v = 'A' * (n - 1) + '\x07'
-            value = '<BEL>'
+            # a control character, or a character that only another character set (extended / 5010 extended) would allow
+            outside = [c for c in 'aq%@_#`^' if c not in ref_values.charset_of(doc.charset, doc.entry['icvn']) and c not in ('~*:^' if doc.entry['icvn'] == '00501' else '~*:')]
+            if outside and rng.random() < 0.6:
+                c = rng.choice(outside)
+                v = 'A' * (n - 1) + c
+                value = v
+                note = 'outside-charset:%s:%s' % (doc.charset, doc.entry['icvn'])
+            else:
+                v = 'A' * (n - 1) + '\x07'
+                value = '<BEL>'
         else:
             v = '1' * (n - 1) + 'X'
             value = v
         d = clone(doc)
         set_value(d.recs[i], ep, sp, v)
-        return _mk(d, 'bad_char', i, ep, sp, ['6'], value, raw_value=v)
+        return _mk(d, 'bad_char', i, ep, sp, ['6'], value, raw_value=v, note=note)
 
     @staticmethod
     def bad_date(rng, doc):
@@ -483,15 +492,14 @@ class _K(object):
         return _mk(d, 'too_many_components', i, k.seq, None, ['3'], None)
 
     @staticmethod
-    def syntax(rng, doc):
+    def syntax(rng, doc, want=None):
         cands = [i for i, r in enumerate(doc.recs) if is_body(r) and r.node.syntax]
         rng.shuffle(cands)
+        found = []      # (tag, i, p, v, note, idx): every single edit that violates exactly one note of its segment
         for i in cands[:20]:
             r = doc.recs[i]
             seg = r.node
-            notes = list(seg.syntax)
-            rng.shuffle(notes)
-            for note in notes:
+            for note in seg.syntax:
                 t = note[0]
                 idx = [int(note[k:k + 2]) for k in range(1, len(note) - 1, 2)]
 
@@ -515,16 +523,30 @@ class _K(object):
                         dt, mn, mx = gen_doc.dtype_of(node)
                         if dt in ('AN', 'ID') or dt[0] == 'N' or dt == 'R':
                             edits.append((p, _alpha_for(dt) * max(mn, 1)))
-                rng.shuffle(edits)
                 for p, v in edits:
-                    d = clone(doc)
-                    set_value(d.recs[i], p, None, v)
-                    nv = d.recs[i].vals
+                    nv = copy.deepcopy(r.vals)
+                    while len(nv) < p:
+                        nv.append('')
+                    nv[p - 1] = v
                     # exactly this note (and no other note of the segment) must be violated afterwards
                     viol = [n2 for n2 in seg.syntax if not gen_doc.syn_ok(n2, lambda q: present(q, nv))]
                     if viol == [note]:
-                        return _mk(d, 'syntax', i, idx[0], None, ['10'] if t == 'E' else ['2'], None, positions=idx, note=note)
-        return None
+                        # 'short': every mentioned element that is absent lies beyond the last element the segment carries (nothing but the
+                        # end of the segment says so); 'gaps': at least one of them is an empty element inside the segment
+                        carried = max([q for q in range(1, len(nv) + 1) if present(q, nv)] or [0])
+                        absent = [q for q in idx if not present(q, nv)]
+                        tag = '%s:%s' % (t, 'short' if absent and all(q > carried for q in absent) else 'gaps')
+                        found.append((tag, i, p, v, note, idx))
+        if not found:
+            return None
+        tags = sorted(set(f[0] for f in found))
+        if want is not None and want not in tags:
+            return None
+        want = want or rng.choice(tags)         # by shape first, so that rare shapes are not drowned by the common ones
+        tag, i, p, v, note, idx = rng.choice([f for f in found if f[0] == want])
+        d = clone(doc)
+        set_value(d.recs[i], p, None, v)
+        return _mk(d, 'syntax', i, idx[0], None, ['10'] if note[0] == 'E' else ['2'], None, positions=idx, note='%s shape:%s' % (note, tag))
 
     # ---------------- segment level
     @staticmethod
